@@ -66,6 +66,9 @@ func payloadMutator(devs map[string]bool) func([]byte) []byte {
 		if devs["annDropped"] && ann != nil {
 			delete(ann, "org.example/build")
 		}
+		if devs["annDroppedEmpty"] && ann != nil {
+			delete(ann, "io.example/notes") // an original annotation whose value is the empty string
+		}
 		if devs["annAltered"] && ann != nil {
 			ann["team"] = ann["team"] + "-altered"
 		}
@@ -165,7 +168,7 @@ func runPluginSigner() int {
 		}
 		ps, err := signer.NewPluginSigner(p, "key-1", map[string]string{"cfg": "1"})
 		must(err)
-		ann := map[string]string{"org.example/build": "42", "team": "alpha"}
+		ann := map[string]string{"org.example/build": "42", "team": "alpha", "io.example/notes": ""}
 		want := ocispec.Descriptor{MediaType: mtA, Digest: digestOf(digest.SHA256, []byte("requested artifact")), Size: 1234, Annotations: copyMap(ann)}
 		opts := notation.SignerSignOptions{SignatureMediaType: mediaTypeOf(in.Format), ExpiryDuration: 0}
 		obs := PSObs{}
